@@ -8,7 +8,8 @@ RULE = ("(1) generation time: APIs whose request messages declare every kind of 
         "unary, server-, client- and bidi-streaming methods in two services, crossed with method-settings lists: valid ones, each single "
         "violation injected at a random position, duplicates (of valid, invalid and unknown selectors, twice and three times), "
         "random mixtures, and all of these crossed with a non-empty selective_gapic_generation allow-list in both modes (entry naming the listed "
-        "method / an omitted existing method / no method at all); one case = one (API, settings list); non-trivial = some entry lists at least one field or a selector repeats. "
+        "method / an omitted existing method / no method at all), and — through the real generator path API.build + Generator.get_response — with the "
+        "services spread over proto sub-packages (all top-level / mixed / all in sub-packages, one or two sub-packages); one case = one (API, settings list); non-trivial = some entry lists at least one field or a selector repeats. "
         "(2) call time: generated libraries (grpc+rest) with accepted settings, every auto-populated method called through the sync gRPC, "
         "asyncio gRPC and REST clients with the field unset / empty / set, request given as message, dict, None or flattened keywords, "
         "two or three calls each; one case = one (library, method, client kind, request mode, caller valuation); all are non-trivial. "
@@ -30,6 +31,7 @@ ASSUMES = ["method selectors and field names are distinct (protoc guarantees it)
 IMPORTS = "From GV Require Import Model.Uuid."
 SIG_REPEATED = "uuid.repeated_string_field_accepted"
 SIG_ONEOF = "uuid.oneof_member_clobbers_sibling"
+SIG_SUBVIEW = "uuid.subpackage_view_rejects_valid_settings"
 UUID4 = re.compile(r"^[0-9a-f]{8}-[0-9a-f]{4}-4[0-9a-f]{3}-[89ab][0-9a-f]{3}-[0-9a-f]{12}$")
 PKG = "google.example.library.v1"
 EMPTY = ".google.protobuf.Empty"
@@ -822,6 +824,162 @@ def witness_oneof(ctx):
              {"kind": "witness-oneof", "request_b64": apigen.req_b64(req), "settings": settings, "spec": spec})]
 
 
+# ---------------------------------------------------------------------------------------------- package layouts
+LAYOUTS = {            # service -> proto sub-package (relative to the generated package; "" = declared directly in it)
+    "top": {"Library": "", "Admin": ""},
+    "mixed": {"Library": "", "Admin": "admin"},
+    "mixed-rev": {"Library": "services", "Admin": ""},
+    "allsub": {"Library": "services", "Admin": "admin"},
+    "allsub-one": {"Library": "services", "Admin": "services"},
+}
+LAYOUT_FIELDS = [("parent", "string", {}, None), ("request_id", "string", {}, "UUID4"), ("opt_id", "string", {"optional": True}, "UUID4"),
+                 ("name", "string", {"required": True}, None), ("count", "int32", {}, "UUID4"), ("note", "string", {}, None),
+                 ("req_uuid", "string", {"required": True}, "UUID4"), ("rep_id", "string", {"repeated": True}, "UUID4")]
+
+
+def layout_api(layout):
+    """Services spread over proto sub-packages of the generated package (the messages they return live in <pkg>.resources, so the
+    common package prefix stays <pkg> even when no service is declared directly in it)."""
+    from google.api import field_info_pb2
+    d = "/".join(PKG.split("."))
+    res = File(f"{d}/resources/resources.proto", PKG + ".resources", deps=list(apigen.STD_DEPS))
+    book = res.message("Book").field("title", 1, "string")
+    files, desc, byfile = [res], {"methods": {}, "layout": layout}, {}
+    rpcs = {"Library": [("CreateBook", False, False), ("UpdateBook", False, False), ("WatchBooks", False, True), ("UploadBooks", True, False)],
+            "Admin": [("CreateThing", False, False), ("GetThing", False, False)]}
+    for svc_name, sub in LAYOUTS[layout].items():
+        pkg = PKG + ("." + sub if sub else "")
+        key = (sub, svc_name if LAYOUTS[layout]["Library"] != LAYOUTS[layout]["Admin"] or not sub else "both")
+        fname = f"{d}/{sub + '/' if sub else ''}{svc_name.lower()}.proto"
+        f = File(fname, pkg, deps=list(apigen.STD_DEPS) + ["google/api/field_info.proto", res.proto.name])
+        inner = f.message(svc_name + "Inner").field("request_id", 1, "string", uuid4=True)
+        svc = f.service(svc_name, host="library.example.com")
+        for rpc, cs, ss in rpcs[svc_name]:
+            m = f.message(rpc + "Request")
+            for i, (n, t, kw, fmt) in enumerate(LAYOUT_FIELDS, 1):
+                m.field(n, i, t, **kw)
+                if fmt:
+                    m.proto.field[-1].options.Extensions[field_info_pb2.field_info].format = getattr(field_info_pb2.FieldInfo, fmt)
+            m.field("inner", 20, inner.fqn)
+            svc.rpc(rpc, m.fqn, book.fqn, cs=cs, ss=ss)
+            desc["methods"][f"{pkg}.{svc_name}.{rpc}"] = {
+                "cs": cs, "ss": ss, "sub": [sub] if sub else [], "service": svc_name, "rpc": rpc,
+                "fields": [{"name": n, "string": t == "string", "required": bool(kw.get("required")), "uuid4": fmt == "UUID4",
+                            "optional": bool(kw.get("optional")), "repeated": bool(kw.get("repeated"))} for n, t, kw, fmt in LAYOUT_FIELDS]
+                + [{"name": "inner", "string": False, "required": False, "uuid4": False, "optional": False, "repeated": False}]}
+        files.append(f)
+    return files, desc
+
+
+def layout_settings(r, desc, full):
+    sel = {m["rpc"]: s for s, m in desc["methods"].items()}
+    good_lib = {"selector": sel["CreateBook"], "auto_populated_fields": ["request_id", "opt_id"]}
+    good_adm = {"selector": sel["CreateThing"], "auto_populated_fields": ["opt_id"]}
+    bad = lambda rpc, fields: {"selector": sel[rpc], "auto_populated_fields": fields}
+    out = [
+        ("valid-library", [good_lib]), ("valid-admin", [good_adm]), ("valid-both", [good_lib, good_adm]),
+        ("valid-no-fields", [{"selector": sel["CreateBook"], "auto_populated_fields": []}, {"selector": sel["GetThing"], "auto_populated_fields": []}]),
+        ("empty-list", []),
+        ("missing-method", [{"selector": sel["CreateBook"] + "s", "auto_populated_fields": ["request_id"]}]),
+        ("missing-method", [good_adm, {"selector": sel["CreateThing"].replace("CreateThing", "CreateThings"), "auto_populated_fields": ["opt_id"]}]),
+        ("missing-service", [{"selector": f"{PKG}.Nope.CreateBook", "auto_populated_fields": ["request_id"]}]),
+        ("streaming", [bad("WatchBooks", ["request_id"])]), ("streaming", [good_adm, bad("UploadBooks", ["opt_id"])]),
+        ("bad-field-required", [bad("CreateBook", ["name"])]), ("bad-field-required", [bad("CreateThing", ["req_uuid"]), good_lib]),
+        ("bad-field-not-string", [bad("UpdateBook", ["count"])]), ("bad-field-no-format", [bad("CreateThing", ["note"])]),
+        ("bad-field-nested", [bad("CreateBook", ["inner.request_id"])]), ("bad-field-missing", [bad("GetThing", ["nope"])]),
+        ("bad-field-repeated", [bad("CreateBook", ["rep_id"])]),
+        ("duplicate", [good_lib, dict(good_lib)]), ("duplicate", [good_adm, good_lib, {"selector": sel["CreateThing"], "auto_populated_fields": []}]),
+    ]
+    if not full:
+        out = out[:5] + r.sample(out[5:], 8)
+    return out
+
+
+def coq_layout(desc):
+    items = []
+    for s, m in desc["methods"].items():
+        fs = coq.lst(f"(mkRField {coq.s(f['name'])} {coq.b(f['string'])} {coq.b(f['required'])} {coq.b(f['uuid4'])} {coq.b(f['optional'])} {coq.b(f['repeated'])})"
+                     for f in m["fields"])
+        items.append(f"(mkLMethod {coq.slist(m['sub'])} (mkMethod {coq.s(s)} {coq.b(m['cs'])} {coq.b(m['ss'])} (Some {fs})))")
+    return coq.lst(items)
+
+
+def run_layouts(ctx, seed_tag="C18-layout", full_layouts=2, only=None):
+    """Generation outcome through the real generator path (API.build + Generator.get_response: validation is lazy and runs on the
+    view of the sub-package that owns each service), crossed with how the services are spread over proto sub-packages."""
+    cases = []
+    for li, layout in enumerate(LAYOUTS):
+        r = env.rng(seed_tag, li)
+        files, desc = layout_api(layout)
+        todo = layout_settings(r, desc, full=ctx.tier != "quick" or layout in ("allsub", "mixed", "allsub-one"))
+        d = os.path.join(env.VERIF, "corpus", "C18")
+        for n in sorted(os.listdir(d)) if os.path.isdir(d) else []:
+            c = json.load(open(os.path.join(d, n))) if n.endswith(".json") else {}
+            if c.get("kind") == "layout-corpus" and c["layout"] == layout:
+                todo.insert(0, ("corpus:" + n, c["settings"]))
+        for k, (kind, settings) in enumerate(todo):
+            if only is not None and (layout, settings) != only:
+                continue
+            req = gen.with_params(apigen.request(files), ["transport=grpc"], gen.case_dir(f"c18lay{seed_tag}{layout}{k}"), service_yaml=service_yaml(settings))
+            cases.append({"layout": layout, "kind": kind, "settings": settings, "desc": desc, "req": req})
+    if only is not None and not cases:
+        files, desc = layout_api(only[0])
+        req = gen.with_params(apigen.request(files), ["transport=grpc"], gen.case_dir(f"c18layonly"), service_yaml=service_yaml(only[1]))
+        cases.append({"layout": only[0], "kind": "replay", "settings": only[1], "desc": desc, "req": req})
+    outs = []
+    chunks = [cases[i:i + 4] for i in range(0, len(cases), 4)]
+    for part in gen.pmap(lambda ch: gen.impl("msgen", [{"request_b64": apigen.req_b64(c["req"])} for c in ch]), chunks):
+        outs += part
+    checks, pending = [], []
+    defs = "\n".join(f"Definition LAY_{re.sub(chr(45), '_', l)} := {coq_layout(layout_api(l)[1])}." for l in LAYOUTS)
+    for c, o in zip(cases, outs):
+        layout, settings, desc = c["layout"], c["settings"], c["desc"]
+        subs = sorted({"/".join(m["sub"]) or "<top>" for m in desc["methods"].values()})
+        ctx.case({"layout": layout, "settings": settings}, nontrivial=bool(settings),
+                 feature=[f"layout-{layout}", f"layout-settings-{c['kind']}", f"layout-outcome-{o['outcome']}"])
+        case = {"kind": "layout", "layout": layout, "settings": settings, "request_b64": apigen.req_b64(c["req"]), "outcome": {k: v for k, v in o.items() if k != "populated"}}
+        if o["outcome"] == "harness-error":
+            ctx.oblige("T2 layouts: impl script ran", False, json.dumps(o)[:500])
+            continue
+        short = json.dumps([[e["selector"].replace(PKG + ".", ""), e.get("auto_populated_fields")] for e in settings])
+        label = f"layout={layout} (services in {subs}) {c['kind']} settings={short} generator={json.dumps({k: v for k, v in o.items() if k != 'populated'})[:240]}"
+        checks.append((label, f"layout_outcome_matches LAY_{layout.replace('-', '_')} {coq_settings(settings)} {coq_outcome(o)}"))
+        # ---- direct oracle: the property's sentence, judged against the methods of the whole API ----
+        verdict = spec_verdict(desc, settings)
+        failed = o["outcome"] != "accepted"
+        if verdict == "must-fail" and not failed:
+            pending.append((None, f"the generator produced a library for method settings that must be rejected (services in sub-packages {subs}; "
+                                  f"emitted population: {json.dumps(o.get('populated'))[:300]}): {json.dumps(settings)}", case))
+        if verdict == "must-succeed" and failed:
+            errs = o.get("errors") or {}
+            explained = (o["outcome"] == "rejected" and subs != ["<top>"] and errs
+                         and all(v == ["Method was not found."] and k in desc["methods"] for k, v in errs.items()))
+            pending.append((SIG_SUBVIEW if explained else None,
+                            f"generation rejects method settings that are valid for the API (services in sub-packages {subs}): {json.dumps(settings)} -> {json.dumps(o)[:300]}", case))
+        if o["outcome"] == "accepted" and verdict == "must-succeed":
+            want = {}
+            for e in settings:
+                m = desc["methods"].get(e["selector"])
+                if e.get("auto_populated_fields") and m is not None:
+                    want.setdefault(snake(m["service"]), {})[snake(m["rpc"])] = list(e["auto_populated_fields"])
+            got = {}
+            for fname, per in (o.get("populated") or {}).items():
+                mm = re.search(r"/services/(\w+)/(client|async_client)\.py$", fname)
+                got.setdefault((mm.group(1), mm.group(2)), {}).update(per)
+            for svc, per in want.items():
+                for which in ("client", "async_client"):
+                    if got.get((svc, which)) != per:
+                        pending.append((None, f"layout={layout}: accepted settings {json.dumps(settings)} but {svc}/{which}.py populates {got.get((svc, which))} instead of {per}", case))
+            for (svc, which), per in got.items():
+                if per != want.get(svc):
+                    pending.append((None, f"layout={layout}: {svc}/{which}.py populates {per} which the settings do not ask for", case))
+    failing, errors, nfiles = coq.eval_checks("c18layout" + re.sub(r"\W", "", seed_tag), IMPORTS, defs, checks)
+    ctx.oblige(f"T2 layouts: generator outcome (API.build + Generator.get_response) = Model.view_outcomes on {len(checks)} (layout, settings) pairs ({nfiles} cases files)",
+               not failing and not errors and (len(checks) > 0 or only is not None), "; ".join((failing + errors)[:5]))
+    ctx.notes.setdefault("layout_disagreements", []).extend(failing[:10])
+    return pending
+
+
 def report(ctx, pending):
     groups = {}
     for p in pending:
@@ -842,6 +1000,7 @@ def run(ctx):
     pending = []
     pending += run_validation(ctx, ctx.n(4, 40), ctx.n(24, 48))
     pending += run_calls(ctx, ctx.n(4, 30))
+    pending += run_layouts(ctx)
     pending += witness_repeated(ctx)
     pending += witness_oneof(ctx)
     report(ctx, pending)
@@ -850,6 +1009,7 @@ def run(ctx):
 def search(ctx, broken):
     pending = []
     pending += run_validation(ctx, 12, 48, seed_tag="C18-search-val")
+    pending += run_layouts(ctx, seed_tag="C18-search-layout")
     pending += run_calls(ctx, 10, seed_tag="C18-search-lib")
     report(ctx, [p for p in pending if p[0] is None])
 
@@ -868,6 +1028,14 @@ def replay(ctx, rep):
             ctx.violation(rep.get("what", "validation disagrees with the property"), c, rep.get("signature"))
         failing, errors, _ = coq.eval_checks("c18replay", IMPORTS, "", [("replay", f"outcome_eqb (enforce {coq_table(c['desc'], sel)} {coq_settings(c['settings'])}) {coq_outcome(o)}")])
         ctx.oblige("replay: Model.enforce = implementation", not failing and not errors, "; ".join(failing + errors)[:600])
+    elif c.get("kind") == "layout":
+        pending = run_layouts(ctx, seed_tag="C18-replay-layout", only=(c["layout"], c["settings"]))
+        pending = [(p[0] or rep.get("signature"), p[1], p[2]) for p in pending]
+        report(ctx, pending)
+        for p in pending:
+            print("replay:", p[1])
+        if not pending:
+            print("replay: the oracle no longer fails on this case")
     elif c.get("kind") == "call" and "spec" in c:
         files_req = apigen.req_from_b64(c["request_b64"])
         req = gen.with_params(files_req, ["transport=grpc+rest"], gen.case_dir("c18replay"), service_yaml=service_yaml(c["settings"]))
